@@ -7,6 +7,11 @@
       src/pdf_lib/pdf_obj.rs    ArrayP, DictP, ReferenceP, PDFObjP, parse_pdf_obj
   Import-free apart from Base and the regenerated operator table.
 
+  Mirrors /repo at c253761 (incl. the C02/C15 fixes to `PDFObjP`/`IntegerP`: explicit `+`,
+  `R` must end its token, `IntegerP` needs a digit) PLUS the pending fixes C12-01..04
+  (q/Q rows; TJ operand count; Tj ' " operand kinds by position; stream may end at an operator
+  boundary).  Line numbers in comments refer to pdf_content_streams.rs before C12-02..04.
+
   Conventions
   * The buffer is an unrestricted `ParseBuffer`; the cursor is represented by the
     *remaining input* (`cursor = len(buf) - len(rest)`), so "result and cursor afterwards"
